@@ -7,9 +7,12 @@ Driver of C14.  Abstract cases:
          { name source type start end score strand phase nattr { key value } }
      → request `gff_roundtrip …` (the real Build, Parse∘Build, GetSequence of every parsed
        feature, Write/Read through a file)
+  buildx …   the same as `build`; Build's text is compared byte for byte (`build`: up to the position of
+             the newlines inside the sequence, see `canonText`)
   layout version region first last defline seq nfeat
          { seqid source type first last score strand phase nattr { key value } }
-         ndir { directive } ncom { comment } gaps closeMark widths finalNewline
+         nbetween { n { line } } nafter { line } nfasta { n { line } } widths finalNewline
+         npre { line } trailingSemi crlf
      → request `gff_parse <text>` where `<text> = Spec.GffLayout.layout d ℓ`
 -/
 namespace PolyVerif.Driver.C14
@@ -71,18 +74,32 @@ def toFeatLine (f : Feature) : FeatLine :=
   { seqid := f.name, source := f.source, type := f.type, first := f.start, last := f.stop,
     score := f.score, strand := f.strand, phase := f.phase, attrs := f.attrs }
 
+def takeGroups : Nat → List String → Option (List (List Str) × List String)
+  | 0, r => some ([], r)
+  | n + 1, k :: r =>
+    match takeStrs (natOfStr k) r with
+    | some (g, r') => (takeGroups n r').map fun (gs, r'') => (g :: gs, r'')
+    | none => none
+  | _, _ => none
+
 def decodeLayout : List String → Option (GffDoc × Layout)
   | ver :: region :: rf :: rl :: defline :: seq :: nf :: r =>
     match takeFeats (natOfStr nf) r with
-    | some (fs, nd :: r1) =>
-      match takeStrs (natOfStr nd) r1 with
-      | some (dirs, nc :: r2) =>
-        match takeStrs (natOfStr nc) r2 with
-        | some (coms, [gaps, cm, widths, fnl]) =>
-          some ({ version := ver.toList, region := region.toList, regionFirst := intOfStr rf, regionLast := intOfStr rl,
-                  feats := fs.map toFeatLine, defline := defline.toList, seq := seq.toList },
-                { directives := dirs, comments := coms, gaps := natList gaps, closeMark := cm == "true",
-                  widths := widthList widths, finalNewline := fnl == "true" })
+    | some (fs, nb :: r1) =>
+      match takeGroups (natOfStr nb) r1 with
+      | some (between, na :: r2) =>
+        match takeStrs (natOfStr na) r2 with
+        | some (after, nfb :: r3) =>
+          match takeGroups (natOfStr nfb) r3 with
+          | some (fastaBetween, widths :: fnl :: np :: r4) =>
+            match takeStrs (natOfStr np) r4 with
+            | some (pre, [semi, crlf]) =>
+              some ({ version := ver.toList, region := region.toList, regionFirst := intOfStr rf, regionLast := intOfStr rl,
+                      feats := fs.map toFeatLine, defline := defline.toList, seq := seq.toList },
+                    { between := between, after := after, fastaBetween := fastaBetween, widths := widthList widths,
+                      finalNewline := fnl == "true", preRegion := pre, trailingSemi := semi == "true", crlf := crlf == "true" })
+            | _ => none
+          | _ => none
         | _ => none
       | _ => none
     | _ => none
@@ -197,6 +214,7 @@ def canonReply : List String → List String
 def render (c : List String) : List String :=
   match c with
   | "build" :: r => "gff_roundtrip" :: r
+  | "buildx" :: r => "gff_roundtrip" :: r
   | "layout" :: r =>
     match decodeLayout r with
     | some (d, ℓ) => ["gff_parse", str (layout d ℓ)]
@@ -206,15 +224,17 @@ def render (c : List String) : List String :=
 def lenClass (n : Nat) : String :=
   if n % 70 == 0 then "len%70=0" else if n % 70 == 1 then "len%70=1" else "len%70=other"
 
-def judge (c out : List String) : Verdict :=
-  match c with
-  | "build" :: r =>
+/-- the judge's domain for a Build round trip: `wfBuild`, except that a blank inside GffVersion
+(a field the property does not speak about) does not take the record out of the domain -/
+def inBuildDomain (x : Gff) : Bool := wfBuild { x with gffVersion := x.gffVersion.filter (· != ' ') }
+
+def judgeBuild (exact : Bool) (r out : List String) : Verdict :=
     match decodeBuild r with
     | none => { corr := false, judge := none, cls := "bad-case", detail := "bad case" }
     | some x =>
       let text := build x
       let m := ["ok", str text] ++ showParse (parse text) ++ ["rw-same"]
-      let inDom := wfBuild x
+      let inDom := inBuildDomain x
       let j := match out with
         | "ok" :: _ :: rest =>
           (match readReply rest with
@@ -224,12 +244,17 @@ def judge (c out : List String) : Verdict :=
       let triv := x.features.isEmpty && x.seq.length < 70
       let reCls := if x.regionEnd == (x.seq.length : Int) then "re=len" else if x.regionEnd == 0 then "re=0"
                    else if x.regionEnd % 70 == 0 then "re=70k" else "re=other"
-      let same := canonReply out == canonReply m
+      let same := if exact then out == m else canonReply out == canonReply m
       { corr := same, judge := if inDom then some j else none,
-        cls := (if triv then "triv:" else "") ++ "build/" ++ lenClass x.seq.length ++ "/" ++ reCls
+        cls := (if triv then "triv:" else "") ++ (if exact then "buildx/" else "build/") ++ lenClass x.seq.length ++ "/" ++ reCls
                ++ (if x.features.any (fun f => f.attrs.isEmpty) then "/noattr" else "")
                ++ (if same && out != m then "/other-wrap" else ""),
         detail := if same && (j || !inDom) then "" else lineOf (m.drop 2) }
+
+def judge (c out : List String) : Verdict :=
+  match c with
+  | "build" :: r => judgeBuild false r out
+  | "buildx" :: r => judgeBuild true r out
   | "layout" :: r =>
     match decodeLayout r with
     | none => { corr := false, judge := none, cls := "bad-case", detail := "bad case" }
@@ -242,7 +267,10 @@ def judge (c out : List String) : Verdict :=
       let triv := d.feats.isEmpty && d.seq.length < 70
       { corr := out == m, judge := if inDom then some j else none,
         cls := (if triv then "triv:" else "") ++ "layout/" ++ lenClass d.seq.length
-               ++ (if !ℓ.comments.isEmpty then "/comments" else ""),
+               ++ (if ℓ.trailingSemi && !d.feats.isEmpty then "/kf:C14-trailing-semicolon"
+                   else if ℓ.crlf then "/kf:C14-crlf"
+                   else if !ℓ.preRegion.isEmpty then "/kf:C14-directive-before-region"
+                   else if (ℓ.between.any (!·.isEmpty)) || !ℓ.fastaBetween.isEmpty then "/skips" else ""),
         detail := if out == m && (j || !inDom) then "" else lineOf m }
   | _ => { corr := false, judge := none, cls := "bad-case", detail := "bad case" }
 
